@@ -62,6 +62,8 @@ type c05type struct {
 	bits   []string
 	idents []string
 	list   bool
+	// twoBases: identityref { base base-id; base other-base; }: the values are the identities derived from both
+	twoBases bool
 }
 
 func baseBounds(base string, fd int) (lo, hi *big.Rat) {
@@ -219,6 +221,9 @@ func (t *c05type) yang() (typedefs string, leafType string) {
 				}
 			case "identityref":
 				extra = " base base-id;"
+				if t.twoBases {
+					extra += " base other-base;"
+				}
 			}
 		}
 		return extra + restr(l)
@@ -277,7 +282,11 @@ func genC05Type(c *core.Ctx, idx int) *c05type {
 		t.bits = []string{"b0", "b1", "b2"}
 		return t
 	case "identityref":
-		t.idents = []string{"id-a", "id-b"}
+		t.idents = []string{"id-a", "id-b", "id-ab"}
+		if r.Intn(2) == 0 {
+			t.twoBases = true
+			t.idents = []string{"id-ab"}
+		}
 		return t
 	case "decimal64":
 		t.fd = 1 + r.Intn(3)
@@ -315,7 +324,8 @@ func (t *c05type) candidates(c *core.Ctx) []string {
 	case "bits":
 		return []string{"b0", "b0 b2", "b1 b2 b0", "b3", "b0 nope", "nope", "b0 b0"}
 	case "identityref":
-		return []string{"id-a", "id-b", "id-c", "m:id-a", "id-", "ID-A", "nope"}
+		// base-id is the base, not one of the identities derived from it; id-o derives from other-base only
+		return []string{"id-a", "id-b", "id-ab", "id-c", "id-o", "base-id", "other-base", "m:id-a", "m:id-ab", "m:base-id", "id-", "ID-A", "nope"}
 	case "string":
 		out := []string{"", "a", "ab", "abc", "abcd", "abcde", "abcdef", "z", "az", "xxabxx", "abz", "12", "123", "a1", "é", "éé", "ééé", "世世世世", "世", "y", "xyy", "cdab", "abab", "b", "A", " ", "aé世", strings.Repeat("a", 300),
 			"on", "off", "only", "onoff", "takeoff", "10ms", "10s", "never", "whenever", "x10s", "10ms or so", "cd", "abx", "xz", "zebra"}
@@ -429,7 +439,7 @@ func (p c05) Run(c *core.Ctx, idx int) {
 	}
 	idents := ""
 	if t.base == "identityref" {
-		idents = "  identity base-id;\n  identity id-a { base base-id; }\n  identity id-b { base base-id; }\n  identity id-c;\n"
+		idents = "  identity base-id;\n  identity other-base;\n  identity id-a { base base-id; }\n  identity id-b { base base-id; }\n  identity id-o { base other-base; }\n  identity id-ab { base base-id; base other-base; }\n  identity id-c;\n"
 	}
 	// decoy leaves: the same pattern / range texts with the opposite modifier or other bounds elsewhere in the
 	// module must not influence x (statements are independent objects)
